@@ -9,13 +9,13 @@ from checks import tsa_common as tc
 PID = 'C29'
 SCHEDULE_DEPENDENT = False
 RULE = ('seeded histories over 2-4 instances of 1-2 classes built with MetaThreadSafeAttributes (1-2 attributes each): '
-        'instance creation at arbitrary points, assignments, augmented assignments and reads written as source-line '
+        'instance creation at arbitrary points, instances that die and are replaced by new ones (address reuse), assignments, augmented assignments and reads written as source-line '
         'statements, executed by 1-3 simulated threads taking turns; oracle: a per-instance store model - every read returns '
         'the value last stored on that very instance (0 for a fresh instance), whatever was stored on other instances or '
         'classes. Non-trivial = a read of an instance after a different instance of the same class was assigned; distinct = '
         'distinct (number of instances, classes, history shape) tuples.')
 ASSUMPTIONS = ['no schedule dimension: threads take turns statement by statement (interleavings inside a statement are C27\'s subject)']
-PROBES = ['read_after_foreign_write']
+PROBES = ['read_after_foreign_write', 'instance_replaced']
 PLAN = {
   'quick': {'strata': {'instances': 4000}, 'wall_s': 90, 'chunk': 100, 'min_conclusive': 1000},
   'thorough': {'strata': {'instances': 80000}, 'wall_s': 600, 'chunk': 250, 'min_conclusive': 10000},
@@ -34,7 +34,7 @@ def generate(seed, stratum, tier):
     live = [i for i, d in enumerate(inst) if d['at'] <= step]
     i = rng.choice(live)
     a = rng.choice(attrs)
-    k = rng.choice(['assign', 'assign', 'aug', 'read', 'read'])
+    k = rng.choice(['assign', 'assign', 'aug', 'read', 'read', 'renew'])
     val += 1
     ops.append({'thread': rng.randrange(3), 'inst': i, 'attr': a, 'kind': k, 'k': val * 3 + 1, 'step': step})
   return {'nclasses': nclasses, 'attrs': attrs, 'instances': inst, 'ops': ops,
@@ -49,6 +49,8 @@ def shrink_candidates(sc):
 
 def text(op):
   t = 'o%d.%s' % (op['inst'], op['attr'])
+  if op['kind'] == 'renew':
+    return 'pass  # o%d is dropped and a new instance takes its place' % op['inst']
   if op['kind'] == 'assign':
     return '%s = %d' % (t, op['k'])
   if op['kind'] == 'aug':
@@ -68,6 +70,7 @@ def execute(sc, sched):
   ops = sc['ops']
   codes = [tc.compile_script([text(op)]) for op in ops]
   foreign = [False]
+  renewed = set()
 
   def client(k):
     for idx, op in enumerate(ops):
@@ -81,6 +84,20 @@ def execute(sc, sched):
           objs[i] = classes[d['cls']]()
           for a in sc['attrs']:
             model[(i, a)] = 0
+      if op['kind'] == 'renew':
+        # the instance dies (nothing else refers to it) and a fresh one of the same class is
+        # created right away: CPython is likely to give it the same address
+        i = op['inst']
+        cls_i = classes[sc['instances'][i]['cls']]
+        objs.pop(i, None)
+        import gc
+        gc.collect()
+        objs[i] = cls_i()
+        for a in sc['attrs']:
+          model[(i, a)] = 0
+        renewed.add(i)
+        turn[0] = idx + 1
+        continue
       ns = {'x': None, '_m': lambda i: None}
       for i, ob in objs.items():
         ns['o%d' % i] = ob
@@ -114,13 +131,16 @@ def execute(sc, sched):
   else:
     for idx, txt, got, want in log:
       if got != want:
-        fresh = not any(o['inst'] == ops[idx]['inst'] and o['attr'] == ops[idx]['attr'] and o['kind'] != 'read' for o in ops[:idx])
+        fresh = not any(o['inst'] == ops[idx]['inst'] and o['attr'] == ops[idx]['attr'] and o['kind'] not in ('read', 'renew') for o in ops[:idx])
         res.violate('foreign-value', {'fresh_instance': fresh},
                     'op#%d `%s` read %r but the value stored on that instance is %r\nhistory: %s' % (idx, txt, got, want, [text(o) for o in ops[:idx + 1]]))
         break
   # reach
   written = set()
   for idx, op in enumerate(ops):
+    if op['kind'] == 'renew':
+      sim.probe('instance_replaced')
+      continue
     if op['kind'] != 'read':
       written.add((op['inst'], sc['instances'][op['inst']]['cls'], op['attr']))
     else:
